@@ -417,7 +417,8 @@ def run(ctx: Ctx) -> None:
             objs, clouds = [], []
             s0, s100 = r.choice([(1.0, 1.0), (1.2, 1.5), (0.8, 2.0)])
             for k in range(n_obj):
-                box = (r.uniform(-60, 60), r.uniform(-60, 60), r.uniform(-1, 1), O.rand_yaw(r), r.uniform(0.5, 2.5), r.uniform(0.5, 6), r.uniform(1, 3))
+                ext = 60 if r.random() < 0.75 else 170  # also objects well beyond 100 m: the scale keeps growing linearly there
+                box = (r.uniform(-ext, ext), r.uniform(-ext, ext), r.uniform(-1, 1), O.rand_yaw(r), r.uniform(0.5, 2.5), r.uniform(0.5, 6), r.uniform(1, 3))
                 vis = r.choice([Visibility.FULL, Visibility.MOST, Visibility.PARTIAL, Visibility.NONE, Visibility.UNAVAILABLE, None])
                 objs.append(O.obj3d(*box, uuid=f"o{k}", visibility=vis))
                 scale = s0 + 0.01 * (s100 - s0) * float(np.linalg.norm(box[:3]))
